@@ -54,10 +54,11 @@ JoinIn(ps) == IF HasErr(ps) THEN FirstErr(ps) ELSE
 \* one inserted value: html_quote decodes bytes and escapes; plain insertion keeps the type
 PieceOf(n) == IF n.q THEN Txt(Esc(n.s)) ELSE [ty |-> n.ty, s |-> n.s]
 
-\* ustr: the string form of a non-string value
+\* ustr: the string form of a non-string value; html-quoted (q) it is decoded like any bytes and escaped
 ValOf(n) ==
     CASE n.kind = "str-wrong" -> Err("ValueError")        \* __str__ returned a non-string
       [] n.kind = "str-raises" -> Err("RuntimeError")     \* __str__ raised
+      [] n.q -> Txt(Esc(n.s))
       [] n.kind = "str-bytes" -> Byt(n.s)                 \* __str__ returned bytes
       [] OTHER -> Txt(n.s)                                \* str(v) / the exception's message
 
